@@ -113,11 +113,11 @@ LINTS = ("; shared shape lints on the property's anchor files (sa/lints.py): dea
          "subclass-preserving conversions followed by overloaded operators, NaN constants written into computations, unrestored process-wide settings, memoised accessors of "
          "mutable state, two-way selection by mask arithmetic over divisions, and the second lint module (sa/lints2.py): all() as a null test, shape-ambiguous transposition, "
          "column norms of row samples, tolerance null tests, patched zero norms, swallowed non-finite input and swallowed row exceptions, clamped arguments, writing validators, "
-         "mismatched None tests, dtype taken from an argument%s, "
+         "mismatched None tests, dtype taken from an argument%s, early-return memo keys (CACHE-KEY.early) and values latched from the object's own data (LATCH.data), "
          "each with an embedded positive example that must fire on every run")
 EXTRA = {
  "C01": "; IDENT.rotate on 3-by-N column arrays",
- "C02": "; inversion on the decision path of six sample rotations per method (sample-selected paths, exact closed forms); interval abstract interpretation of sqrt/arccos arguments (DOMAIN-GUARD); tolerance gates mapped to rotation-angle bands from the extracted closed forms (BAND.gate); INVERT.post (symbolic eigen-solver)",
+ "C02": "; inversion on the decision path of six sample rotations per method (sample-selected paths, exact closed forms); interval abstract interpretation of sqrt/arccos arguments (DOMAIN-GUARD); tolerance gates mapped to rotation-angle bands from the extracted closed forms (BAND.gate); INVERT.post (symbolic eigen-solver); SHADOW-INIT shared with C11 (DCM.to_quaternion converts the shadow attribute, which must be the memory the instance is made over - ndarray.__new__ buffer or view-cast base)",
  "C03": "; COUNT.len length analysis, FEEDBACK.guard must-fact; interval abstract interpretation of sqrt/arccos arguments (DOMAIN-GUARD); stale shadow attribute (.A) modelling of ndarray-subclass arithmetic in UNIT-RET; index-form normal form of enumerate/zip sample loops (sa/desugar.py) before COUNT; VALUE-RAISE (no rejection by the values of integrated angles)",
  "C04": "; interval DOMAIN-GUARD, POSE-DIV (divisors of the singularity-free estimator), scale-invariant QUEST inputs, structural discovery of Newton updates, dcm2quat direction on every decision path; AM2Q.dcm scale-invariance obligation and SCALE-GATE (tolerance tests on quantities carrying the free magnitude symbols); QUEST.start, TRIAD.quat",
  "C05": "; interval SHORT-ARC rule for AQUA's delta quaternions; GAIN-INPUT must-fact rule; interpretation-based gradient step; AM-TILT identities of the accelerometer angles; REF-UNIT (value number of the EKF's magnetic reference at every exit)",
@@ -125,10 +125,10 @@ EXTRA = {
  "C07": "; ROWWISE structural rule, TWIN.from_DCM on the four pivot arms (sample-selected paths), TWIN.band (both arms gate their limit shortcuts on the same angle band), NO-SIGN-ZERO for metrics, DOMAIN-GUARD; ROWWISE.route (pinned per-row estimate() call sites; un-twinned vectorised arms get no verdict); tolerance tests compared between the scalar and array to_angles; TWIN.nan (same NaN-aware reduction in every arm of rmse)",
  "C08": "; PROTOCOL option forwarding for the batch integrator; ANGVEL.gate (no tolerance gate between consecutive samples); PROTOCOL for every filter whose dead-reckoning / prediction step the property names",
  "C09": "; q_conj row-wise twin; scalar-last matrix rule shared with C01",
- "C10": "; LOG.arm agreement of every inequality-guarded arm of DCM.log with the generic closed form; RPY.gate pole bands; path enumeration of DCM.to_axisangle; LOG.sample (closed form of the decision path of 36 sample rotations)",
- "C11": "; BUFFER-LAYOUT (the buffer handed to ndarray.__new__ is provably C-contiguous float64) and REAL-GATE (the shared validator admits real dtypes only)",
+ "C10": "; LOG.arm agreement of every inequality-guarded arm of DCM.log with the generic closed form; RPY.gate pole bands; path enumeration of DCM.to_axisangle; LOG.sample (closed form of the decision path of 36 sample rotations); LIMIT-ARM (constant limit arms of Quaternion.exponential/logarithm are guarded by exact tests, predicate methods inlined)",
+ "C11": "; BUFFER-LAYOUT (the buffer handed to ndarray.__new__ is provably C-contiguous float64) and REAL-GATE (the shared validator admits real dtypes only); SHADOW-INIT also for view-cast construction",
  "C12": "; value-number form of the NaN-interval split; ownership rule on the interpolation helpers; NANFILL.empty must-fact, NANFILL.mask (rows with any NaN component), NANFILL.options (slerp's own defaults); NANFILL.sample and TWIN.jumps.sample (interpretation with recorders / on sign patterns)",
- "C13": "; DROPOUT-EXIT (zero side of every sample-norm test raises or returns); RECOMPUTED rule; axis-aware norm value numbers; one-level continuation into private helpers with the caller's value numbers and facts; ROLEQ.attitude_propagation discharges the unit assumption of the dropout arm; dead-reckoning obligations shared with C08",
+ "C13": "; DROPOUT-EXIT (zero side of every sample-norm test raises or returns); RECOMPUTED rule; axis-aware norm value numbers; one-level continuation into private helpers with the caller's value numbers and facts; ROLEQ.attitude_propagation discharges the unit assumption of the dropout arm; dead-reckoning obligations shared with C08; SEED-GUARD (call-graph rule: the producer of the initial attitude of every batch method is null-safe, its None answer is tested, or every per-sample consumer validates its a-priori quaternion first)",
  "C14": "; RELOAD must-call rule shared with C15; TABLE.header on a synthetic coefficient file",
  "C15": "; KEEP-DATE (date=None reload is the identity on the date state); MODULE-STATE lint",
  "C16": "; CTOR-ACCEPT (no rejection decided by the sign of w), PIZZETTI on every equality-guarded degenerate arm; every inequality-guarded arm of normal_gravity returns the same closed form; LIMIT (sphere arm is the f -> 0 limit of the general arm, on the extracted closed forms); INHERIT (decided members not overridden by subclasses; instance-independent returns); clip transparency with symbolic bounds; SOMIGLIANA.sphere; GATE.ellipsoid (no tolerance comparison on the ellipsoid's parameters in a decided member)",
